@@ -181,7 +181,8 @@ def generate(repo):
 
     # ---------------------------------------------------------------- garbage collector
     gc = fn_body(side, 'collect_garbage', G)
-    loop = gc.find('for (full_path, location, generation) in candidates')
+    mloop = re.search(r'for\s*\([^)]*\)\s*in\s+candidates', gc)
+    loop = mloop.start() if mloop else -1
     if loop < 0:
         lost(G, 'collect_garbage: sweep loop')
         loop = 0
@@ -196,6 +197,8 @@ def generate(repo):
         ('GcRecheck', r'self\s*\.\s*is_referenced\s*\('),
         ('GcDelete', r'self\s*\.\s*store\s*\.\s*delete\s*\(\s*&full_path\s*\)'),
     ], G, 'collect_garbage sweep', required=('GcRecheck', 'GcDelete'))
+    # the re-read of the commit point is the sole condition of its `if` (no candidate is exempted from it)
+    recheck_unconditional = bool(re.search(r'if\s+self\s*\.\s*is_referenced\s*\(', gc[loop:]))
     floor_guard = bool(re.search(r'if\s+ts\s*>=\s*floor_ms\s*\{[^}]*continue', gc, re.S))
     skips_marked = bool(re.search(r'Some\s*\(\s*PayloadRef::Generation\s*\(\s*g\s*\)\s*\)\s*if\s*\*g\s*==\s*generation\s*=>\s*continue', gc))
     isref = fn_body(side, 'is_referenced', G)
@@ -207,12 +210,25 @@ def generate(repo):
     unregisters = bool(re.search(r'\.remove\s*\(\s*&self\s*\.\s*key\s*\)', drop))
     out.append('Definition gc_phases : list gc_ev := %s.\n' % coq_list(phases))
     out.append('Definition gc_sweep : list gc_ev := %s.\n' % coq_list(sweep))
+    out.append('Definition gc_recheck_unconditional : bool := %s.\n' % ('true' if recheck_unconditional else 'false'))
     out.append('Definition gc_floor_guard : bool := %s.\n' % ('true' if floor_guard else 'false'))
     out.append('Definition gc_skips_marked : bool := %s.\n' % ('true' if skips_marked else 'false'))
     out.append('Definition gc_recheck_reads_backend : bool := %s.\n' % ('true' if recheck_reads_backend else 'false'))
     out.append('Definition guard_registers : bool := %s.\n' % ('true' if registers else 'false'))
     out.append('Definition guard_drop_unregisters : bool := %s.\n\n' % ('true' if unregisters else 'false'))
 
+    # ---------------------------------------------------------------- metadata cache discipline (C07)
+    le = fn_body(side, 'listing_entry', G)
+    listing_inserts = bool(re.search(r'meta_cache\s*\.\s*(insert|entry)\s*\(', le))
+    gm = fn_body(side, 'get_meta', G)
+    rm = fn_body(side, 'refresh_meta', G)
+    def in_section(body):
+        i = body.find('.and_try_compute_with(')
+        j = body.find('self.load_meta(')
+        return i >= 0 and j > i and 'self.load_meta(' not in body[:i]
+    loads_in_section = in_section(gm) and in_section(rm)
+    out.append('Definition listing_inserts_cache : bool := %s.\n' % ('true' if listing_inserts else 'false'))
+    out.append('Definition loads_in_key_section : bool := %s.\n\n' % ('true' if loads_in_section else 'false'))
     # ---------------------------------------------------------------- constants used by C07
     m = re.search(r'const\s+DEFAULT_CHUNK_SIZE\s*:\s*u64\s*=\s*([0-9_ *]+);', enc)
     if m:
